@@ -503,18 +503,19 @@ theorem take_stored (body : Bytes) (c1 n : Nat) (h : (Vnum.enc c1).length ≤ n)
     (stored true body c1).take n = stored true (body.take (n - (Vnum.enc c1).length)) c1 := by
   simp only [stored, if_true, List.take_append, List.take_of_length_le h]
 
-/-- `_lx_sblk_cmp_key`, compound layout. The hypothesis `hS` excludes the defect of the C code: the
-    short-cut test `ksize < lkl` adds the vnum size of the LOOKUP key's compound part, but the body
-    cached in `lk` is shortened by the vnum size of the STORED key's compound part. -/
+theorem lkStep_stored (b1 : Bytes) (c1 : Nat) : lkStep (stored true b1 c1) = (Vnum.enc c1).length := by
+  simp [lkStep, stored, dec_stored]
+
+/-- `_lx_sblk_cmp_key`, compound layout (fixed code: `ksize` counts the STORED compound vnum):
+    same sign as the full-key comparison for every stored key, lookup key and compound parts;
+    `hL`: the compound vnum (≤ 10 bytes) fits the cache. -/
 theorem lxCmp_plain_c (body : Bytes) (c1 : Nat) (k : Bytes) (c2 : Nat)
-    (hL : (Vnum.enc c1).length < Gen.PREFIX_KEY_LEN_V2)
-    (hS : k.length + Vnum.size c2 < Gen.PREFIX_KEY_LEN_V2 →
-          k.length + (Vnum.enc c1).length < Gen.PREFIX_KEY_LEN_V2) :
+    (hL : (Vnum.enc c1).length < Gen.PREFIX_KEY_LEN_V2) :
     sgn (lxCmp .plain true (stored true body c1) k c2)
       = sgn (cmpKeys .plain true (stored true body c1) k c2) := by
   unfold lxCmp
   simp only [if_true, ne_eq, not_true_eq_false, or_false, decide_eq_true_eq]
-  rw [take_stored body c1 _ (by omega)]
+  rw [take_stored body c1 _ (by omega), lkStep_stored]
   generalize hP : Gen.PREFIX_KEY_LEN_V2 = P at *
   generalize hLL : (Vnum.enc c1).length = L at *
   have hfl : (stored true body c1).length = L + body.length := by simp [stored, hLL]
@@ -524,9 +525,9 @@ theorem lxCmp_plain_c (body : Bytes) (c1 : Nat) (k : Bytes) (c2 : Nat)
   · have hb : (body.take (P - L)).length = P - L := by simp; omega
     have hl : (stored true (body.take (P - L)) c1).length = P := by simp [stored, hLL, hb]; omega
     simp only [hf, false_or, hl]
-    by_cases hk : k.length + Vnum.size c2 < P
+    by_cases hk : k.length + L < P
     · simp only [hk, if_true, cmpKeys_plain_c]
-      rcases tieBreak_take_short k body (P - L) (by have := hS hk; omega) (by omega) with ⟨h1, h2⟩ | ⟨h1, h2⟩
+      rcases tieBreak_take_short k body (P - L) (by omega) (by omega) with ⟨h1, h2⟩ | ⟨h1, h2⟩
       · rw [h1]
       · rw [if_neg (by omega), if_neg (by omega), sgn_neg h1, sgn_neg h2]
     · simp only [hk, if_false]
@@ -536,5 +537,97 @@ theorem lxCmp_plain_c (body : Bytes) (c1 : Nat) (k : Bytes) (c2 : Nat)
       · simp only [hr, if_false]
         rw [cmpKeys_plain_c, tieBreak, cmp2_take_ne k body _ hr]
         simp only [hr, if_false]
+
+/-! ### real-number keys through `_cmp_keys`, both layouts -/
+
+theorem sgn_flip {i j : Int} (h : sgn i = - sgn j) : (i < 0 ↔ j > 0) ∧ (i = 0 ↔ j = 0) ∧ (i > 0 ↔ j < 0) := by
+  unfold sgn at h
+  repeat' split at h
+  all_goals omega
+
+theorem strictWeak_int : StrictWeak (fun (x y : Int) => decide (x < y)) :=
+  StrictWeak.of_linear _ (by simp) (by simp only [decide_eq_true_eq]; omega)
+    (by simp only [decide_eq_true_eq]; omega)
+
+theorem afcmp_antisymm (a b : Bytes) : sgn (afcmp a b) = - sgn (afcmp b a) :=
+  afcmpWith_antisymm _ _ _ strictWeak_int a b
+
+theorem afcmp_eq_zero (a b : Bytes) : afcmp a b = 0 ↔ a = b := afcmpWith_eq_zero _ _ _ strictWeak_int a b
+
+theorem afcmp_trans (a b c : Bytes) (h1 : afcmp a b < 0) (h2 : afcmp b c < 0) : afcmp a c < 0 :=
+  afcmpWith_trans _ _ _ strictWeak_int a b c h1 h2
+
+/-- comparison of two effective real-number keys `(text, compound part)` through `_cmp_keys` -/
+def cmpR (compound : Bool) (a b : Bytes × Nat) : Int :=
+  cmpKeys .real compound (stored compound a.1 a.2) b.1 b.2
+
+theorem cmpR_false (a b : Bytes × Nat) : cmpR false a b = afcmp b.1 a.1 := by
+  simp [cmpR, stored, cmpKeys, cmpPrefix]
+
+theorem cmpR_true (a b : Bytes × Nat) (ha : a.1 ≠ []) :
+    cmpR true a b = if afcmp b.1 a.1 = 0 then cmp3 (a.2 : Int) (b.2 : Int) else afcmp b.1 a.1 := by
+  have hl : ((Vnum.enc a.2 ++ a.1).length : Int) - ((Vnum.enc a.2).length : Int) = (a.1.length : Int) := by
+    simp; omega
+  have hp : ¬ ((a.1.length : Int) < 1) := by
+    have := List.length_pos_iff.mpr ha; omega
+  simp only [cmpR, cmpKeys, cmpPrefix, stored, if_true, dec_stored, hl, List.drop_left, hp, if_false,
+    reduceCtorEq, and_false]
+
+theorem cmpR_total (c : Bool) (x y z : Bytes × Nat) (hx : x.1 ≠ []) (hy : y.1 ≠ []) :
+    sgn (cmpR c x y) = - sgn (cmpR c y x) ∧
+    (cmpR c x y = 0 ↔ x.1 = y.1 ∧ (c = true → x.2 = y.2)) ∧
+    (cmpR c x y > 0 → cmpR c y z > 0 → cmpR c x z > 0) := by
+  have a1 := sgn_flip (afcmp_antisymm y.1 x.1)
+  have a2 := sgn_flip (afcmp_antisymm z.1 y.1)
+  have a3 := sgn_flip (afcmp_antisymm z.1 x.1)
+  have tr := afcmp_trans x.1 y.1 z.1
+  cases c with
+  | false =>
+    rw [cmpR_false, cmpR_false, cmpR_false, cmpR_false]
+    refine ⟨afcmp_antisymm _ _, ?_, ?_⟩
+    · rw [afcmp_eq_zero]; simp; exact eq_comm
+    · intro h1 h2; exact a3.2.2.mpr (tr (a1.2.2.mp h1) (a2.2.2.mp h2))
+  | true =>
+    rw [cmpR_true x y hx, cmpR_true y x hy, cmpR_true y z hy, cmpR_true x z hx, cmp3_nat, cmp3_nat,
+      cmp3_nat, cmp3_nat]
+    refine ⟨?_, ?_, ?_⟩
+    · by_cases h0 : afcmp y.1 x.1 = 0
+      · have h0' := a1.2.1.mp h0
+        simp only [h0, h0', if_true]
+        unfold sgn; repeat' split
+        all_goals omega
+      · have h0' : ¬ afcmp x.1 y.1 = 0 := fun h => h0 (a1.2.1.mpr h)
+        simp only [h0, h0', if_false]
+        exact afcmp_antisymm _ _
+    · simp only [true_implies]
+      constructor
+      · intro h
+        by_cases h0 : afcmp y.1 x.1 = 0
+        · simp only [h0, if_true] at h
+          refine ⟨((afcmp_eq_zero _ _).mp h0).symm, ?_⟩
+          repeat' split at h
+          all_goals omega
+        · simp only [h0, if_false] at h
+      · rintro ⟨e1, e2⟩
+        have : afcmp y.1 x.1 = 0 := (afcmp_eq_zero _ _).mpr e1.symm
+        simp [this, e2]
+    · intro h1 h2
+      by_cases t1 : afcmp y.1 x.1 = 0
+      · have e := (afcmp_eq_zero _ _).mp t1
+        rw [← e]
+        by_cases t2 : afcmp z.1 y.1 = 0
+        · simp only [t1, t2, if_true] at h1 h2 ⊢
+          repeat' split at h1
+          all_goals repeat' split at h2
+          all_goals repeat' split
+          all_goals omega
+        · simp only [t2, if_false] at h2 ⊢; exact h2
+      · simp only [t1, if_false] at h1
+        by_cases t2 : afcmp z.1 y.1 = 0
+        · have e := (afcmp_eq_zero _ _).mp t2
+          rw [e, if_neg t1]; exact h1
+        · simp only [t2, if_false] at h2
+          have := a3.2.2.mpr (tr (a1.2.2.mp h1) (a2.2.2.mp h2))
+          rw [if_neg (by omega)]; exact this
 
 end IwModel.Cmp
